@@ -323,13 +323,23 @@ def c13_positions(tier="quick", seed=0):
         if res != (ln, cl) and bad["syntax-error"] is None:
             bad["syntax-error"] = (lead + "@", f"JSSyntaxError at {res}, the character is at {(ln, cl)}")
         cnt["throw"] += 1
+        # the throw statement at top level and inside every kind of function body (each function has its own position table)
+        wrappers = [("var r; try {", " } catch (e) { r = [e.lineNumber, e.columnNumber] } r"),
+                    ("function f() {", " } var r; try { f() } catch (e) { r = [e.lineNumber, e.columnNumber] } r"),
+                    ("var f = () => {", " }; var r; try { f() } catch (e) { r = [e.lineNumber, e.columnNumber] } r"),
+                    ("var o = {m: function () {", " }}; var r; try { o.m() } catch (e) { r = [e.lineNumber, e.columnNumber] } r"),
+                    ("function out() { function f() {", " } f() } var r; try { out() } catch (e) { r = [e.lineNumber, e.columnNumber] } r"),
+                    ("var r; try { [1].forEach(function () {", " }) } catch (e) { r = [e.lineNumber, e.columnNumber] } r"),
+                    ("function unused() { throw new Error('u') } var r; try {", " } catch (e) { r = [e.lineNumber, e.columnNumber] } r")]
+        pre, post = wrappers[cnt["throw"] % len(wrappers)]
+        tsrc = pre + lead + "throw new Error('x')" + post
         try:
-            res = Context(time_limit=10).eval("var r; try {" + lead + "throw new Error('x') } catch (e) { r = [e.lineNumber, e.columnNumber] } r")
+            res = Context(time_limit=10).eval(tsrc)
         except Exception as e:  # noqa
             res = "!" + type(e).__name__
-        wl, wc = (ln, cl + len("var r; try {")) if ln == 1 else (ln, cl)
+        wl, wc = (ln, cl + len(pre)) if ln == 1 else (ln, cl)
         if res != [wl, wc] and bad["throw"] is None:
-            bad["throw"] = ("var r; try {" + lead + "throw new Error('x') } catch (e) { r = [e.lineNumber, e.columnNumber] } r", f"location {res}, the throw keyword is at {[wl, wc]}")
+            bad["throw"] = (tsrc, f"location {res}, the throw keyword is at {[wl, wc]}")
     return [ob(f"C13.bounded.positions.{k}", b is None, "B", f"{cnt[k]} layouts" if b is None else b[1], witness=(b[0] if b else None), confirmed=True if b else None, domain=cnt[k])
             for k, b in bad.items()]
 
